@@ -14,34 +14,40 @@ import (
 
 // functions translated into Gen/Kernels2.v, callees before callers
 var kernels2 = []k2spec{
-	{".", "", "cat", "cat"},
-	{".", "", "lowerCase", "lowerCase"},
-	{".", "", "expandPrefix", "expandPrefix"},
-	{".", "", "verifyChecksum", "verifyChecksum"},
-	{".", "", "createChecksum", "createChecksum"},
-	{".", "", "convertBits", "convertBits"},
-	{".", "", "packAddressData", "packAddressData"},
-	{".", "", "DecodeCashAddress", "DecodeCashAddress"},
-	{"bech32", "", "bech32Polymod", "bech32Polymod"},
-	{"bech32", "", "bech32HrpExpand", "bech32HrpExpand"},
-	{"bech32", "", "bech32Checksum", "bech32Checksum"},
-	{"bech32", "", "bech32VerifyChecksum", "bech32VerifyChecksum"},
-	{"bech32", "", "toBytes", "toBytes"},
-	{"bech32", "", "toChars", "toChars"},
-	{"bech32", "", "ConvertBits", "ConvertBits"},
-	{"bech32", "", "Decode", "Decode"},
-	{"bech32", "", "Encode", "Encode"},
-	{"bloom", "Filter", "hash", "Filter_hash"},
-	{"bloom", "Filter", "matches", "Filter_matches"},
-	{"bloom", "Filter", "add", "Filter_add"},
-	{"bloom", "merkleBlock", "calcTreeWidth", "bloom_merkleBlock_calcTreeWidth"},
-	{"merkleblock", "MerkleBlock", "calcTreeWidth", "MerkleBlock_calcTreeWidth"},
-	{"merkleblock", "PartialBlock", "calcTreeWidth", "PartialBlock_calcTreeWidth"},
-	{"coinset", "", "satisfiesTargetValue", "satisfiesTargetValue"},
-	{"txsort", "sortableInputSlice", "Less", "sortableInputSlice_Less"},
-	{"txsort", "sortableOutputSlice", "Less", "sortableOutputSlice_Less"},
-	{".", "", "paddedAppend", "wif_paddedAppend"},
-	{"hdkeychain", "", "paddedAppend", "hdkeychain_paddedAppend"},
+	{pkg: ".", recv: "", fn: "cat", name: "cat"},
+	{pkg: ".", recv: "", fn: "lowerCase", name: "lowerCase"},
+	{pkg: ".", recv: "", fn: "expandPrefix", name: "expandPrefix"},
+	{pkg: ".", recv: "", fn: "verifyChecksum", name: "verifyChecksum"},
+	{pkg: ".", recv: "", fn: "createChecksum", name: "createChecksum"},
+	{pkg: ".", recv: "", fn: "convertBits", name: "convertBits"},
+	{pkg: ".", recv: "", fn: "packAddressData", name: "packAddressData"},
+	{pkg: ".", recv: "", fn: "DecodeCashAddress", name: "DecodeCashAddress"},
+	{pkg: "bech32", recv: "", fn: "bech32Polymod", name: "bech32Polymod"},
+	{pkg: "bech32", recv: "", fn: "bech32HrpExpand", name: "bech32HrpExpand"},
+	{pkg: "bech32", recv: "", fn: "bech32Checksum", name: "bech32Checksum"},
+	{pkg: "bech32", recv: "", fn: "bech32VerifyChecksum", name: "bech32VerifyChecksum"},
+	{pkg: "bech32", recv: "", fn: "toBytes", name: "toBytes"},
+	{pkg: "bech32", recv: "", fn: "toChars", name: "toChars"},
+	{pkg: "bech32", recv: "", fn: "ConvertBits", name: "ConvertBits"},
+	{pkg: "bech32", recv: "", fn: "Decode", name: "Decode"},
+	{pkg: "bech32", recv: "", fn: "Encode", name: "Encode"},
+	{pkg: "bloom", recv: "Filter", fn: "hash", name: "Filter_hash"},
+	{pkg: "bloom", recv: "Filter", fn: "matches", name: "Filter_matches"},
+	{pkg: "bloom", recv: "Filter", fn: "add", name: "Filter_add"},
+	{pkg: "bloom", recv: "merkleBlock", fn: "calcTreeWidth", name: "bloom_merkleBlock_calcTreeWidth"},
+	{pkg: "merkleblock", recv: "MerkleBlock", fn: "calcTreeWidth", name: "MerkleBlock_calcTreeWidth"},
+	{pkg: "merkleblock", recv: "PartialBlock", fn: "calcTreeWidth", name: "PartialBlock_calcTreeWidth"},
+	{pkg: "coinset", recv: "", fn: "satisfiesTargetValue", name: "satisfiesTargetValue"},
+	{pkg: "txsort", recv: "sortableInputSlice", fn: "Less", name: "sortableInputSlice_Less"},
+	{pkg: "txsort", recv: "sortableOutputSlice", fn: "Less", name: "sortableOutputSlice_Less"},
+	{pkg: ".", recv: "", fn: "paddedAppend", name: "wif_paddedAppend"},
+	{pkg: "hdkeychain", recv: "", fn: "paddedAppend", name: "hdkeychain_paddedAppend"},
+	{pkg: "gcs", recv: "Filter", fn: "readFullUint64", name: "Filter_readFullUint64"},
+	{pkg: "gcs", fn: "BuildGCSFilter", name: "BuildGCSFilter_golomb", from: "var value, lastValue, remainder uint64", to: "for _, v := range values {"},
+	{pkg: "coinset", recv: "CoinSet", fn: "PushCoin", name: "CoinSet_PushCoin"},
+	{pkg: "coinset", recv: "CoinSet", fn: "removeElement", name: "CoinSet_removeElement"},
+	{pkg: "coinset", recv: "CoinSet", fn: "PopCoin", name: "CoinSet_PopCoin"},
+	{pkg: "coinset", recv: "CoinSet", fn: "ShiftCoin", name: "CoinSet_ShiftCoin"},
 }
 
 func (p *pkgInfo) findMethod(recv, name string) *ast.FuncDecl {
@@ -74,15 +80,27 @@ func loadPkg2(dir string) (*pkgInfo, error) { return loadPkgWith(dir, newStubImp
 func (c *m2) numberSites() {
 	c.siteOf = map[*ast.ReturnStmt]int{}
 	if !c.sig.hasErr {
+		ast.Inspect(c.bodyNode, func(n ast.Node) bool {
+			if _, isLit := n.(*ast.FuncLit); isLit {
+				c.fail(n, "function literal")
+			}
+			if r, ok := n.(*ast.ReturnStmt); ok && c.spec.from != "" {
+				c.fail(r, "return inside a translated fragment")
+			}
+			return true
+		})
 		return
 	}
-	ast.Inspect(c.fn.Body, func(n ast.Node) bool {
+	ast.Inspect(c.bodyNode, func(n ast.Node) bool {
 		if _, isLit := n.(*ast.FuncLit); isLit {
 			c.fail(n, "function literal")
 		}
 		r, ok := n.(*ast.ReturnStmt)
 		if !ok {
 			return true
+		}
+		if c.spec.from != "" {
+			c.fail(r, "return inside a translated fragment")
 		}
 		if len(r.Results) != len(c.sig.results)+1 {
 			c.fail(r, "return with %d results in a function with %d", len(r.Results), len(c.sig.results)+1)
@@ -118,7 +136,7 @@ func (c *m2) computeErased() {
 		}
 		return isFmtCall(e)
 	}
-	ast.Inspect(c.fn.Body, func(n ast.Node) bool {
+	ast.Inspect(c.bodyNode, func(n ast.Node) bool {
 		if n == nil {
 			stack = stack[:len(stack)-1]
 			return true
@@ -222,7 +240,7 @@ func (c *m2) aliasCheck() {
 	}
 	var appendBases []use
 	appendBack := map[*ast.Ident]bool{}
-	ast.Inspect(c.fn.Body, func(n ast.Node) bool {
+	ast.Inspect(c.bodyNode, func(n ast.Node) bool {
 		if n == nil {
 			stack = stack[:len(stack)-1]
 			return true
@@ -290,6 +308,12 @@ func (c *m2) aliasCheck() {
 			case *ast.CallExpr:
 				if fid, ok := p.Fun.(*ast.Ident); ok && fid.Name == "len" {
 					return true
+				}
+				// append(x, ys...) copies the elements of ys
+				if fid, ok := p.Fun.(*ast.Ident); ok && fid.Name == "append" && p.Ellipsis.IsValid() && len(p.Args) == 2 && p.Args[1] == ast.Expr(s) {
+					if _, isB := c.obj(fid).(*types.Builtin); isB {
+						return true
+					}
 				}
 			case *ast.RangeStmt:
 				if p.X == ast.Expr(s) {
@@ -422,7 +446,55 @@ func (c *m2) translate2() (out string, err error) {
 		t    mtype
 	}
 	var params []par
+	c.body = fn.Body.List
+	c.bodyNode = fn.Body
+	if c.spec.from != "" {
+		lo, hi := -1, -1
+		for i, s := range fn.Body.List {
+			fl := c.firstLine(s)
+			if lo < 0 && strings.HasPrefix(fl, commentSafe(c.spec.from)) {
+				lo = i
+			}
+			if lo >= 0 && hi < 0 && strings.HasPrefix(fl, commentSafe(c.spec.to)) {
+				hi = i
+			}
+		}
+		if lo < 0 || hi < lo {
+			c.fail(fn, "fragment `%s` .. `%s` not found among the statements of %s", c.spec.from, c.spec.to, fn.Name.Name)
+		}
+		c.body = fn.Body.List[lo : hi+1]
+		c.bodyNode = &ast.BlockStmt{Lbrace: c.body[0].Pos(), List: c.body, Rbrace: c.body[len(c.body)-1].End()}
+		// parameters: the variables declared before the fragment that it mentions (fields of local structs
+		// become field parameters as usual)
+		seen := map[types.Object]bool{}
+		start := c.body[0].Pos()
+		ast.Inspect(c.bodyNode, func(n ast.Node) bool {
+			id, ok := n.(*ast.Ident)
+			if !ok {
+				return true
+			}
+			o := c.obj(id)
+			v, isVar := o.(*types.Var)
+			if !isVar || !c.isLocal(o) || o.Pos() >= start || seen[o] || v.IsField() {
+				return true
+			}
+			seen[o] = true
+			if _, isRoot := c.fieldPath(id); isRoot {
+				return true
+			}
+			t := c.mt(o.Type(), id)
+			params = append(params, par{coqName(id.Name), t})
+			c.sig.params = append(c.sig.params, t)
+			if t.k == mAbs {
+				c.needAbsType(t.abs)
+			}
+			return true
+		})
+	}
 	for _, f := range fn.Type.Params.List {
+		if c.spec.from != "" {
+			break
+		}
 		if len(f.Names) == 0 {
 			c.fail(f, "unnamed parameter")
 		}
@@ -439,7 +511,7 @@ func (c *m2) translate2() (out string, err error) {
 		}
 	}
 	c.sig.consumes = make([]bool, len(params))
-	if fn.Type.Results != nil {
+	if fn.Type.Results != nil && c.spec.from == "" {
 		for i, rf := range fn.Type.Results.List {
 			if len(rf.Names) > 0 {
 				c.fail(rf, "named result")
@@ -465,7 +537,16 @@ func (c *m2) translate2() (out string, err error) {
 		c.effect = false
 		c.usesFuel = false
 		c.fallible = fallible
-		c.blk(fn.Body.List, "  ", func(ind string) {
+		if c.spec.from != "" {
+			// a fragment yields the variables declared before it that it assigns
+			for _, o := range c.assigned2(c.body, c.body[0].Pos()) {
+				if c.fieldObjs != nil && c.fieldObjs[o.Name()] == o {
+					continue
+				}
+				c.addWFieldT(coqName(o.Name()), c.mt(o.Type(), c.body[0]))
+			}
+		}
+		c.blk(c.body, "  ", func(ind string) {
 			if len(c.sig.results) > 0 || c.sig.hasErr {
 				c.fail(fn, "function body does not end with a return")
 			}
@@ -493,26 +574,30 @@ func (c *m2) translate2() (out string, err error) {
 	c.sig.fallible = c.fallible
 	c.sig.fuel = c.usesFuel
 	// written fields are extra results
+	c.sig.nGo = len(c.sig.results)
 	for _, w := range c.sig.wfields {
-		for i, f := range c.sig.fields {
-			if f == w {
-				c.sig.results = append(c.sig.results, c.sig.fieldTy[i])
-			}
-		}
+		c.sig.results = append(c.sig.results, c.sig.wfieldTy[w])
 	}
 	for _, te := range c.p.typeErr {
-		if te.Pos >= fn.Pos() && te.Pos < fn.End() {
+		if te.Pos >= c.bodyNode.Pos() && te.Pos < c.bodyNode.End() {
 			c.fail(fn, "type error inside the function: %s", te.Error())
 		}
 	}
 	var sb strings.Builder
 	pos := c.p.fset.Position(fn.Pos())
 	fmt.Fprintf(&sb, "(* ---- %s/%s:%d   %s ----\n", c.p.name, filepath.Base(pos.Filename), pos.Line, c.srcText(fn.Pos(), fn.Body.Lbrace))
+	if c.spec.from != "" {
+		fmt.Fprintf(&sb, "   FRAGMENT: the statements from L%d `%s` to L%d `%s`; the variables declared before it are parameters.\n",
+			c.line(c.body[0]), c.firstLine(c.body[0]), c.line(c.body[len(c.body)-1]), c.firstLine(c.body[len(c.body)-1]))
+	}
+	if len(c.sig.absTypes) > 0 {
+		fmt.Fprintf(&sb, "   Abstract objects (type parameters %s); their methods are parameters, state-passing when they change the object.\n", strings.Join(c.sig.absTypes, ", "))
+	}
 	if len(c.sig.fields) > 0 {
 		fmt.Fprintf(&sb, "   Receiver fields read, passed as parameters: %s\n", strings.Join(c.sig.fields, ", "))
 	}
 	if len(c.sig.wfields) > 0 {
-		fmt.Fprintf(&sb, "   Receiver fields written, returned (after the Go results): %s\n", strings.Join(c.sig.wfields, ", "))
+		fmt.Fprintf(&sb, "   Fields / objects / variables written, returned (after the Go results): %s\n", strings.Join(c.sig.wfields, ", "))
 	}
 	if c.sig.fuel {
 		fmt.Fprintf(&sb, "   fuel bounds the iterations of each `for cond` loop (Panic 9 when exhausted).\n")
@@ -531,8 +616,14 @@ func (c *m2) translate2() (out string, err error) {
 	}
 	fmt.Fprintf(&sb, "*)\n")
 	var ps []string
+	for _, t := range c.sig.absTypes {
+		ps = append(ps, fmt.Sprintf("{%s_t : Type}", t))
+	}
 	if c.sig.fuel {
 		ps = append(ps, "(fuel : nat)")
+	}
+	for _, am := range c.sig.absMeths {
+		ps = append(ps, fmt.Sprintf("(%s : %s)", am.name, am.coq))
 	}
 	for i, f := range c.sig.fields {
 		ps = append(ps, fmt.Sprintf("(%s : %s)", f, c.sig.fieldTy[i].coq()))
